@@ -45,6 +45,12 @@ class DiscStorage:
             return set()
 
     def persist(self, name):
+        # the name of a complete hash contains no "*",
+        # but the file which is not persisted has the "-new" suffix
+        m = re.fullmatch(r"([0-9a-fA-F]*)\*?(\.[a-zA-Z0-9]*)", name)
+        if m:
+            name = f"{m.group(1)}*{m.group(2)}"
+
         try:
             file = self._lookup_path(name)
         except HashError:
